@@ -106,6 +106,24 @@ TrieFold(f, chain, items) ==
                         ch, Tail(items))
 Trie(items) == TrieFold(<<>>, <<>>, items)
 
+\* 3a. Composition.  The tree of a root is the root's name over the trees of its children, and the tree of a child
+\*     is the tree of the sub-document made of that child's items moved up one level.  (With equally named children
+\*     the sub-documents' roots would have to be merged first; the relation is stated for distinct names.)  Replays of
+\*     trees far beyond what TLC can evaluate - one root with more than 10000 leaves - are checked against this
+\*     relation: the big tree's children must be the trees the same library call gives for the small sub-documents,
+\*     which TLC does evaluate.
+RootStarts(items) == {i \in 1..Len(items) : items[i].d = 1}
+Block(items, i) == LET later == {j \in RootStarts(items) : j > i}
+                       e == IF later = {} THEN Len(items) ELSE (CHOOSE j \in later : \A k \in later : j <= k) - 1
+                   IN SubSeq(items, i, e)
+Lift(items) == [i \in 1..Len(items) |-> [items[i] EXCEPT !.d = @ - 1]]
+DistinctTop(items) == \A i, j \in RootStarts(items) : items[i].n = items[j].n => i = j
+TrieComposes(items) ==
+  \A i \in RootStarts(items) :
+     LET b == Block(items, i)
+         below == Lift(Tail(b)) IN
+     DistinctTop(below) => Trie(b) = <<[name |-> b[1].n, kids |-> Trie(below)]>>
+
 RECURSIVE TreeSize(_)
 TreeSize(t) == 1 + (LET RECURSIVE S(_)
                         S(ks) == IF ks = <<>> THEN 0 ELSE TreeSize(Head(ks)) + S(Tail(ks))
